@@ -191,19 +191,19 @@ func TestVerifC07(t *testing.T) {
 	c.Rule("3-10 changes created at once over 8-47 tasks of kinds {run-hook(snap in 3 snaps), the 12 interface task kinds, prerequisites, update-gadget-assets, plain kinds}, sparse random wait edges (so that many tasks of the serialized classes are runnable at the same time), seeded 0-3 ms handler bodies, a few failing tasks to trigger undo handlers; 3 goroutines race TaskRunner.Ensure() on the production-wired runner under the race detector. The spy bodies record the set of open handlers; every open is judged against the set already open. Non-trivial: the case had at least two tasks of one serialized class with no dependency path between them (the predicate, not the graph, must keep them apart) and more than one handler was open at once; distinct = case signature.")
 	c.Assume("handler bodies are spies; every blocked predicate consulted by Ensure is snapd's own, registered by overlord.New")
 	c.Assume("the list of interface-manipulating task kinds is the documented one (hotplug-seq-wait deliberately excluded)")
-	c.Floor("handler_opens", 2000)
-	c.Floor("unordered_same_class_pairs", 500)
+	c.Floor("handler_opens", 600)
+	c.Floor("unordered_same_class_pairs", 300)
 	defer dirs.SetRootDir("/")
 	restore := ifacestate.MockSecurityBackends(nil)
 	defer restore()
-	n := kit.Scale(120, 1500)
+	n := kit.Scale(40, 400)
 	only := kit.OnlyCase()
 	var o *overlord.Overlord
 	for i := 0; i < n; i++ {
 		if only >= 0 && i != only {
 			continue
 		}
-		if o == nil || i%10 == 0 {
+		if o == nil || i%5 == 0 {
 			if o != nil {
 				o.TaskRunner().Stop()
 				os.RemoveAll(dirs.GlobalRootDir)
@@ -273,7 +273,7 @@ func TestVerifC07(t *testing.T) {
 					default:
 					}
 					o.TaskRunner().Ensure()
-					time.Sleep(150 * time.Microsecond)
+					time.Sleep(400 * time.Microsecond)
 				}
 			}()
 		}
